@@ -97,6 +97,31 @@ def calls_on_field(body, adt_suffix, field, names=None):
     return out
 
 
+def cast_chain(body, operand, hops=8):
+    """[(cast kind, target type)] applied, innermost last, on the way from the value's origin to `operand`
+    (follows single-definition copies)."""
+    from mirlib import op_place
+    out = []
+    op = operand
+    while hops > 0:
+        hops -= 1
+        p = op_place(op)
+        if p is None or p[1]:
+            break
+        d = body.single_def(p[0])
+        if d is None or d[0] != "assign":
+            break
+        rv = d[3]
+        if rv[0] == "use":
+            op = rv[1]
+        elif rv[0] == "cast":
+            out.append((rv[1], rv[3]))
+            op = rv[2]
+        else:
+            break
+    return out
+
+
 def bool_const_sources(body, operand):
     return [s[1] for s in body.const_sources(operand) if isinstance(s[1], bool)]
 
